@@ -214,8 +214,20 @@ pub fn run(args: &[String]) {
         writeln!(w, "lit\tbits\t{}\t{nbits}\tstr={};ty={}\t{oracle}", cps(&text), asg_v.as_deref().map(cps).unwrap_or("none".into()), ty.unwrap_or_default()).unwrap();
     }
     // ---- timing and imaginary literals, booleans
-    for (num, isint) in [("10", true), ("0", true), ("2_5", true), ("1.5", false), ("3.", false), ("1e3", false)] {
+    // small numbers, and integers of every magnitude up to 2^128-1 in several spellings
+    let mut nums: Vec<(String, bool)> = [("10", true), ("0", true), ("2_5", true), ("1.5", false), ("3.", false), ("1e3", false)].iter().map(|(a, b)| (a.to_string(), *b)).collect();
+    for bits in [31u32, 32, 33, 53, 63, 64, 65, 100, 127, 128] {
+        let v: u128 = if bits == 128 { u128::MAX } else { (1u128 << bits) + 1 };
+        nums.push((v.to_string(), true));
+        nums.push((format!("0x{v:x}"), true));
+        let d = v.to_string();
+        nums.push((format!("{}_{}", &d[..1], &d[1..]), true));
+    }
+    for (num, isint) in nums.iter().map(|(a, b)| (a.as_str(), *b)) {
         for unit in ["ns", "us", "µs", "ms", "s", "dt", "im"] {
+            if num.starts_with("0x") && (unit == "dt" || unit == "s") {
+                continue; // `d` is a hexadecimal digit; keep the spelling unambiguous
+            }
             for sp in ["", " "] {
                 let text = format!("{num}{sp}{unit}");
                 let (lit, ty, panic) = asg_first_literal(&format!("{text};"));
@@ -241,6 +253,10 @@ pub fn run(args: &[String]) {
                     let val = inner.field("value").cloned();
                     let unit_ok = unit == "im" || inner.field("time_unit").map(|u| u.name() == want_unit).unwrap_or(false);
                     let clean = num.replace('_', "");
+                    let clean = match clean.strip_prefix("0x") {
+                        Some(h) => u128::from_str_radix(h, 16).map(|v| v.to_string()).unwrap_or(clean.clone()),
+                        None => clean,
+                    };
                     let val_ok = match val {
                         Some(D::Atom(a)) => {
                             if isint { a == clean } else { a.parse::<f64>().ok().map(|x| x.to_bits()) == clean.parse::<f64>().ok().map(|x| x.to_bits()) }
@@ -265,6 +281,33 @@ pub fn run(args: &[String]) {
                 writeln!(w, "lit\ttiming\t{}\t-\t{}\t{oracle}", cps(&text), lit.map(|d| d.name().to_string()).unwrap_or_default()).unwrap();
             }
         }
+    }
+    // negated imaginary integers: folded into the literal with a negative sign
+    for (num, isint) in nums.iter().map(|(a, b)| (a.as_str(), *b)) {
+        if !isint || num.starts_with("0x") {
+            continue;
+        }
+        let text = format!("-{num}im");
+        let (lit, _ty, panic) = asg_first_literal(&format!("{text};"));
+        let clean = num.replace('_', "");
+        let oracle = if let Some(p) = panic {
+            format!("FAIL C03: analysis panicked on {text}: {}", &p[..p.len().min(60)])
+        } else {
+            match &lit {
+                Some(d) if d.name() == "ImaginaryInt" => {
+                    let inner = d.arg(0).cloned().unwrap_or(D::Atom("".into()));
+                    let v = inner.field("value").map(|x| x.name().to_string()).unwrap_or_default();
+                    let sg = inner.field("sign").map(|x| x.name().to_string()).unwrap_or_default();
+                    if v == clean && (sg == "false" || clean == "0") {
+                        "ok".to_string()
+                    } else {
+                        format!("FAIL C10: {text} became {d:?}")
+                    }
+                }
+                other => format!("FAIL C10: {text} became {other:?}"),
+            }
+        };
+        writeln!(w, "lit\ttiming\t{}\t-\t{}\t{oracle}", cps(&text), lit.map(|d| d.name().to_string()).unwrap_or_default()).unwrap();
     }
     for (t, v) in [("true", "true"), ("false", "false")] {
         let (lit, ty, _) = asg_first_literal(&format!("{t};"));
